@@ -224,9 +224,33 @@ def install():
 # fake connector / PHY and the pump
 # ---------------------------------------------------------------------------
 
+class Out:
+    """PDUs waiting on the wire: one FIFO per connection handle (connections are independent channels);
+    the pump serves the handles round-robin, so interleaved procedures really alternate PDU by PDU."""
+    def __init__(self):
+        self.q = {}
+        self.last = None
+
+    def append(self, item):
+        self.q.setdefault(item[0], deque()).append(item)
+
+    def __bool__(self):
+        return any(self.q.values())
+
+    def popleft(self):
+        hs = sorted(h for h, d in self.q.items() if d)
+        later = [h for h in hs if self.last is not None and h > self.last]
+        h = (later or hs)[0]
+        self.last = h
+        return self.q[h].popleft()
+
+    def clear(self):
+        self.q = {}
+
+
 class Conn:
     def __init__(self):
-        self.out = deque()
+        self.out = Out()
         self.enc = []
         self.connection = None
 
